@@ -75,6 +75,7 @@ where
                     amount,
                 );
                 txn.effective_date(entry.booking_date.as_naive_date())
+                    .code_option(fragment.code)
                     .dest_account_option(fragment.account);
                 if !fragment.cleared {
                     txn.clear_state(syntax::ClearState::Pending);
@@ -87,7 +88,11 @@ where
                     .amount
                     .to_data(transaction.credit_or_debit.value);
                 let fragment = extractor.extract((entry, Some(transaction)));
-                let code = transaction.refs.account_servicer_reference.as_deref();
+                // a code captured by a rewrite rule wins over the statement's own reference,
+                // as it does in the CSV and Viseca importers.
+                let code = fragment
+                    .code
+                    .or(transaction.refs.account_servicer_reference.as_deref());
                 if fragment.payee.is_none() {
                     log::warn!("payee not set @ {:?}", code);
                 } else if fragment.account.is_none() {
